@@ -27,6 +27,8 @@ def handle (line : String) : String :=
       | "TP" => some handleTP
       | "E2E" => (match ts.head? with
           | some "S" => some (fun ts => handleE2E strE2E (ts.drop 1))
+          | some "M" => some (fun ts => handleE2E matE2E (ts.drop 1))
+          | some "T" => some (fun ts => handleE2ETable (ts.drop 1))
           | _ => none)
       | _ => none
     match p with
